@@ -52,6 +52,89 @@ def raw_text_slots(tier):
     return cases
 
 
+PRELIKE = ("pre", "textarea", "listing")
+RCDATA = ("title", "textarea")
+
+
+def browser_slots():
+    """strings and places where a real HTML parser departs from the uniform reading: a leading line feed right after <pre> / <textarea>,
+    carriage returns (normalised to line feeds by the input pre-processing), dynamic parts inside title / textarea (RCDATA: comments are text)"""
+    cases = []
+    for s in ["\nx", "\n", "\n\nx", "x\ny", "a\rb", "a\r\nb", "\r", "plain"]:
+        st = {"s": {0: s}, "b": {0: True}, "l": {}}
+        for tag in ("pre", "textarea", "p"):
+            cases.append(("slot:browser", st, ("el", tag, [], [("text", s)])))
+            cases.append(("slot:browser", st, ("el", tag, [("a", "title", s)], [("dyntext", 0)])))
+        cases.append(("slot:browser", st, ("el", "title", [], [("text", "Inbox ("), ("dyntext", 0), ("text", ")")])))
+        cases.append(("slot:browser", st, ("el", "textarea", [], [("dyn", 0, [("text", s)], [])])))
+    return cases
+
+
+def browser_reading(toks):
+    """the token list as a browser's parser would deliver it, for the three rules above (applied to the uniform tokenization of the real
+    output); None when a comment / tag sits inside an RCDATA element (it would be literal text there)"""
+    out = []
+    inside = None
+    for i, t in enumerate(toks):
+        if t[0] == "S":
+            t = ("S", t[1], [(n, None if v is None else v.replace("\r\n", "\n").replace("\r", "\n")) for n, v in t[2]])
+            if inside is not None:
+                return None
+            if t[1] in RCDATA:
+                inside = t[1]
+        elif t[0] == "E":
+            if inside is not None and t[1] != inside:
+                return None
+            if t[1] == inside:
+                inside = None
+        elif t[0] == "C":
+            if inside is not None:
+                return None
+        elif t[0] == "T":
+            txt = t[1].replace("\r\n", "\n").replace("\r", "\n")
+            if out and out[-1][0] == "S" and out[-1][1] in PRELIKE and txt.startswith("\n"):
+                txt = txt[1:]
+            t = ("T", txt)
+        out.append(t)
+    return out
+
+
+def browser_finding(v, st):
+    """which known finding explains a difference between the uniform and the browser reading for this view"""
+    def strings(x):
+        if x[0] == "el":
+            for a in x[2]:
+                if a[0] == "a":
+                    yield a[2]
+                elif a[0] == "adyn":
+                    yield st["s"].get(a[2]) or ""
+            for c in x[3]:
+                yield from strings(c)
+        elif x[0] == "text":
+            yield x[1]
+        elif x[0] == "dyntext":
+            yield st["s"].get(x[1]) or ""
+        elif x[0] == "dyn":
+            for c in x[2] + x[3]:
+                yield from strings(c)
+
+    def first_text(x):
+        if x[0] == "text":
+            return x[1]
+        if x[0] == "dyntext":
+            return None        # (its marker comment comes first)
+        return None
+    if v[0] != "el":
+        return None
+    if v[1] in RCDATA and any(c[0] in ("dyntext", "dyn", "show") for c in v[3]):
+        return "F39-markers-in-rcdata"
+    if any("\r" in x for x in strings(v)):
+        return "F40-carriage-return"
+    if v[1] in PRELIKE and v[3] and (first_text(v[3][0]) or "").startswith("\n"):
+        return "F38-leading-newline-in-pre"
+    return None
+
+
 def with_raw(v, rng):
     """rename some elements of a random view to script / style"""
     if v[0] == "el":
@@ -69,7 +152,7 @@ def with_raw(v, rng):
 
 
 def gen(tier, rng):
-    cases = single_slot(tier) + raw_text_slots(tier)
+    cases = single_slot(tier) + raw_text_slots(tier) + browser_slots()
     for i in range(1500 if tier == "quick" else 15000):
         st, v = viewgen.random_view(rng, rng.choice([2, 3, 4]))
         if i % 8 == 7:
@@ -132,7 +215,7 @@ def main(argv):
                    "harness/ssr-driver + harness/common/viewspec.rs (view vocabulary over the real builder API)", "tools/viewgen.py, tools/c08.py",
                    "modelled, not verified: html-escape (from its tables, compared on every run), Cow/Arc<Mutex<_>> plumbing"]
     chk.assumptions = ["script and style are generated and read like every other element (the property's reading: entities are decoded everywhere; a browser does not decode them "
-                       "inside HTML script / style, which the uniform escaping of the renderer does not account for); textarea / title, inner_html, duplicate attribute names, CR and NUL in strings, "
+                       "inside HTML script / style, which the uniform escaping of the renderer does not account for); a browser's reading of pre / textarea / title and of carriage returns is compared on a small family (known findings F38-F40); inner_html, duplicate attribute names, CR and NUL in strings, "
                        "and the tree-construction fix-ups of a full HTML parser are outside the vocabulary"]
     chk.rule = ("single-slot views: every string of length <= 2 (quick) / 3 (thorough) over the metacharacter alphabet plus comment / CDATA / entity "
                 "look-alikes in a text, dynamic text, attribute and dynamic attribute slot; the same and end-tag look-alikes as the text of script / style elements (HTML and under svg); random view trees of depth <= 4 over elements (HTML, SVG, "
@@ -178,6 +261,7 @@ def main(argv):
             broken.append("model evaluation: " + str(e)[-500:])
             chk.obligation("model evaluation", False, str(e))
     dist = {}
+    findings = {f["key"]: f for f in vlib.load_findings(PID)}
     for i, ((tag, st, v), out_hex) in enumerate(zip(cases, impl)):
         key = viewgen.sx_state(st) + viewgen.sx_view(v)
         raw = bytes.fromhex(out_hex) if out_hex != "PANIC" else b""
@@ -195,10 +279,24 @@ def main(argv):
             if got is None:
                 orfail.append({"case": i, "what": "output is not parseable by the HTML tokenizer", "view": viewgen.sx_view(v), "state": viewgen.sx_state(st),
                                "output": raw.decode("utf8", "replace")})
+            elif viewgen.norm_tokens(strip_hk(got)) != exp and tag == "slot:browser" and browser_reading(strip_hk(got)) is not None \
+                    and viewgen.norm_tokens(browser_reading(strip_hk(got))) == exp:
+                pass        # differs from the uniform reading exactly where a browser differs too (e.g. an extra line feed after <pre>): faithful
             elif viewgen.norm_tokens(strip_hk(got)) != exp:
                 orfail.append({"case": i, "what": "output does not parse back to the view that was built", "view": viewgen.sx_view(v),
                                "state": viewgen.sx_state(st), "output": raw.decode("utf8", "replace"),
                                "parsed": str(viewgen.norm_tokens(strip_hk(got)))[:600], "expected": str(exp)[:600]})
+            elif tag == "slot:browser":
+                # the same output as a browser's parser reads it (leading LF of pre / textarea dropped, CR normalised, RCDATA content is text)
+                br = browser_reading(strip_hk(got))
+                if br is None or viewgen.norm_tokens(br) != exp:
+                    key = browser_finding(v, st)
+                    if key and key in findings:
+                        chk.known(findings[key], "e.g. " + viewgen.sx_view(v)[:120])
+                    else:
+                        orfail.append({"case": i, "what": "a browser's parser does not read the output back as the view that was built", "view": viewgen.sx_view(v),
+                                       "state": viewgen.sx_state(st), "output": raw.decode("utf8", "replace"),
+                                       "browser_reads": str(None if br is None else viewgen.norm_tokens(br))[:400], "expected": str(exp)[:400]})
     chk.traces = len(cases) if model is not None else 0
     chk.cov["distribution"] = dist
     chk.obligation("correspondence: model bytes = render_to_string bytes on %d views" % len(cases), model is not None and not mism, str(mism[:2]))
